@@ -3,7 +3,10 @@ From Coq Require Import String.
 From TS Require Import Model.Str Model.Outcome Model.Unicode Model.Syntax Model.Attrs Model.Rename Model.Types Model.Parse.
 From TS Require Import Model.MultiFile Model.Lang.Common Model.Lang.Kotlin Model.Lang.Swift Model.Lang.Scala Model.Lang.Go.
 From TS Require Import Spec.TargetOsRule Spec.C03Spec Spec.C07Spec.
+From TS Require Import Model.Reconcile Model.Collect Model.TopsortAlgo Model.Topsort Model.Lang.TypeScript Model.Lang.Python Spec.C07BackSpec.
 From TS Require Proofs.FrontItems Proofs.C07 Proofs.C07Back.
+From TS Require Proofs.GoAcronyms Proofs.C07Topsort Proofs.C07Front Proofs.C07TypeScript Proofs.C07Kotlin Proofs.C07Scala Proofs.C07Swift
+                Proofs.C07Python Proofs.C07Go Proofs.C07GoAscii Proofs.C07Pipeline.
 From TS Require Props.C07.
 
 Goal forall t : ty, is_panic (parse_ty t) = false.
@@ -191,3 +194,112 @@ Goal List.length (expected_leaves [] Proofs.C07.nonvacuous_file) = 8%nat /\
   end.
 Proof. exact Props.C07.C07_nonvacuous_witness. Qed.
 Print Assumptions Props.C07.C07_nonvacuous_witness.
+Goal forall (uc : unicode) (tstr : str -> option ty) (T : list str) (f : file) (pd : parsed),
+    parse_file uc tstr T f = Ok (Some pd) -> pd_wf pd = true.
+Proof. exact Props.C07.C07_front_end_delivers_shape. Qed.
+Print Assumptions Props.C07.C07_front_end_delivers_shape.
+Goal (forall (rn : renames) (cn : str) (pd : parsed), pd_wf pd = true -> pd_wf (reconcile_crate rn cn pd) = true) /\
+  (forall pd : parsed, pd_wf pd = true -> pd_wf (reconcile_single pd) = true) /\
+  (forall arrivals : list parsed, List.Forall (fun pd => pd_wf pd = true) arrivals -> pd_wf (single_file_input arrivals) = true) /\
+  (forall cs : crates, List.map fst (reconcile_aliases cs) = List.map fst cs).
+Proof. exact Props.C07.C07_reconcile_never_panics. Qed.
+Print Assumptions Props.C07.C07_reconcile_never_panics.
+Goal forall things : list ritem, exists out, topsort things = Ok out /\ Coq.Sorting.Permutation.Permutation out things.
+Proof. exact Props.C07.C07_topsort_never_panics. Qed.
+Print Assumptions Props.C07.C07_topsort_never_panics.
+Goal forall things : list ritem, panics_only fuel_site (topsort things).
+Proof. exact Props.C07.C07_topsort_panics_only_on_fuel. Qed.
+Print Assumptions Props.C07.C07_topsort_panics_only_on_fuel.
+Goal forall things : list ritem, deps_complete things = true.
+Proof. exact Props.C07.C07_dependency_collection_completes. Qed.
+Print Assumptions Props.C07.C07_dependency_collection_completes.
+Goal forall (uc : unicode) (cfg : ts_config) (pd : parsed),
+    panics_only (fun s => pd_wf pd = false /\ (s = "typescript.rs:137"%string \/ s = "typescript.rs:276"%string))
+                (ts_generate uc cfg pd).
+Proof. exact Props.C07.C07_ts_generate_panics_only. Qed.
+Print Assumptions Props.C07.C07_ts_generate_panics_only.
+Goal forall (uc : unicode) (cfg : ts_config) (pd : parsed), pd_wf pd = true -> no_panic (ts_generate uc cfg pd).
+Proof. exact Props.C07.C07_ts_generate_never_panics. Qed.
+Print Assumptions Props.C07.C07_ts_generate_never_panics.
+Goal forall (uc : unicode) (cfg : kt_config) (pd : parsed), no_panic (kt_generate uc cfg pd).
+Proof. exact Props.C07.C07_kt_generate_panics_only. Qed.
+Print Assumptions Props.C07.C07_kt_generate_panics_only.
+Goal forall (uc : unicode) (cfg : sc_config) (pd : parsed), no_panic (sc_generate uc cfg pd).
+Proof. exact Props.C07.C07_sc_generate_panics_only. Qed.
+Print Assumptions Props.C07.C07_sc_generate_panics_only.
+Goal forall (uc : unicode) (cfg : sw_config) (pd : parsed), no_panic (sw_generate uc cfg pd).
+Proof. exact Props.C07.C07_sw_generate_panics_only. Qed.
+Print Assumptions Props.C07.C07_sw_generate_panics_only.
+Goal forall (uc : unicode) (cfg : py_config) (pd : parsed),
+    panics_only (fun s => pd_wf pd = false /\ s = "python.rs:368"%string) (py_generate uc cfg pd).
+Proof. exact Props.C07.C07_py_generate_panics_only. Qed.
+Print Assumptions Props.C07.C07_py_generate_panics_only.
+Goal forall (uc : unicode) (cfg : py_config) (pd : parsed), pd_wf pd = true -> no_panic (py_generate uc cfg pd).
+Proof. exact Props.C07.C07_py_generate_never_panics. Qed.
+Print Assumptions Props.C07.C07_py_generate_never_panics.
+Goal forall uc : unicode, unicode_ok uc -> forall (acrs : list str) (name : str), str_ascii name = true ->
+    exists r, go_convert_acronyms_to_uppercase uc acrs name = Ok r /\ str_ascii r = true.
+Proof. exact Props.C07.C07_go_convert_total_on_ascii. Qed.
+Print Assumptions Props.C07.C07_go_convert_total_on_ascii.
+Goal forall (uc : unicode) (cfg : go_config) (pd : parsed), unicode_ok uc ->
+    panics_only (fun s => (s = "go.rs:594"%string /\ go_uppercase_acronyms cfg <> nil /\
+                           go_input_ascii (go_type_mappings cfg) pd = false) \/
+                          (s = "go.rs:301"%string /\ pd_wf pd = false))
+                (go_generate uc cfg pd).
+Proof. exact Props.C07.C07_go_generate_panics_only. Qed.
+Print Assumptions Props.C07.C07_go_generate_panics_only.
+Goal forall (uc : unicode) (cfg : go_config) (pd : parsed),
+    panics_only (fun s => (s = "go.rs:594"%string /\ go_uppercase_acronyms cfg <> nil) \/
+                          (s = "go.rs:301"%string /\ pd_wf pd = false))
+                (go_generate uc cfg pd).
+Proof. exact Props.C07.C07_go_generate_panics_only_any_tables. Qed.
+Print Assumptions Props.C07.C07_go_generate_panics_only_any_tables.
+Goal forall (uc : unicode) (cfg : go_config) (pd : parsed), unicode_ok uc ->
+    go_input_ascii (go_type_mappings cfg) pd = true -> pd_wf pd = true -> no_panic (go_generate uc cfg pd).
+Proof. exact Props.C07.C07_go_generate_never_panics_ascii. Qed.
+Print Assumptions Props.C07.C07_go_generate_never_panics_ascii.
+Goal forall (uc : unicode) (tstr : str -> option ty) (T : list str) (f : file),
+    (forall c, no_panic (single_file_run (ts_generate uc) uc tstr T c f)) /\
+    (forall c, no_panic (single_file_run (kt_generate uc) uc tstr T c f)) /\
+    (forall c, no_panic (single_file_run (sc_generate uc) uc tstr T c f)) /\
+    (forall c, no_panic (single_file_run (sw_generate uc) uc tstr T c f)) /\
+    (forall c, no_panic (single_file_run (py_generate uc) uc tstr T c f)) /\
+    (forall c, unicode_ok uc ->
+       panics_only (fun s => s = "go.rs:594"%string /\ go_uppercase_acronyms c <> nil /\
+                             go_run_ascii uc tstr T (go_type_mappings c) f = false)
+                   (single_file_run (go_generate uc) uc tstr T c f)).
+Proof. exact Props.C07.C07_single_file_pipeline_never_panics_partial. Qed.
+Print Assumptions Props.C07.C07_single_file_pipeline_never_panics_partial.
+Goal forall (uc : unicode) (tstr : str -> option ty) (T : list str) (c : go_config) (f : file), unicode_ok uc ->
+    go_uppercase_acronyms c = nil \/ go_run_ascii uc tstr T (go_type_mappings c) f = true ->
+    no_panic (single_file_run (go_generate uc) uc tstr T c f).
+Proof. exact Props.C07.C07_go_pipeline_never_panics. Qed.
+Print Assumptions Props.C07.C07_go_pipeline_never_panics.
+Goal Proofs.C07Pipeline.is_generated (single_file_run (ts_generate uc_exec) uc_exec Proofs.C07.no_tstr nil Proofs.C07Pipeline.w_ts_cfg Proofs.C07Pipeline.w_file) = true /\
+  Proofs.C07Pipeline.is_generated (single_file_run (kt_generate uc_exec) uc_exec Proofs.C07.no_tstr nil Proofs.C07Back.w_kt_cfg Proofs.C07Pipeline.w_file) = true /\
+  Proofs.C07Pipeline.is_generated (single_file_run (sc_generate uc_exec) uc_exec Proofs.C07.no_tstr nil (Proofs.C07Back.w_sc_cfg (lit "p")) Proofs.C07Pipeline.w_file) = true /\
+  Proofs.C07Pipeline.is_generated (single_file_run (sw_generate uc_exec) uc_exec Proofs.C07.no_tstr nil Proofs.C07Back.w_sw_cfg Proofs.C07Pipeline.w_file) = true /\
+  Proofs.C07Pipeline.is_generated (single_file_run (py_generate uc_exec) uc_exec Proofs.C07.no_tstr nil Proofs.C07Pipeline.w_py_cfg Proofs.C07Pipeline.w_file) = true /\
+  Proofs.C07Pipeline.is_generated (single_file_run (go_generate uc_exec) uc_exec Proofs.C07.no_tstr nil
+                                     (Proofs.C07Pipeline.w_go_acr (cons (lit "id") (cons (lit "a" ++ cons 233%N nil) nil))) Proofs.C07Pipeline.w_file) = true /\
+  go_run_ascii uc_exec Proofs.C07.no_tstr nil nil Proofs.C07Pipeline.w_file = true /\
+  match parse_file uc_exec Proofs.C07.no_tstr nil Proofs.C07Pipeline.w_file with
+  | Ok (Some pd) => List.length (items_of (reconcile_single pd)) = 4%nat /\ pd_wf pd = true
+  | _ => False
+  end.
+Proof. exact Props.C07.C07_single_file_pipeline_nonvacuous. Qed.
+Print Assumptions Props.C07.C07_single_file_pipeline_nonvacuous.
+Goal single_file_run (go_generate uc_exec) uc_exec Proofs.C07.no_tstr nil
+                  (Proofs.C07Pipeline.w_go_acr (cons (lit "a" ++ cons 233%N nil) nil)) Proofs.C07Pipeline.w_594_file = Panic "go.rs:594" /\
+  go_run_ascii uc_exec Proofs.C07.no_tstr nil nil Proofs.C07Pipeline.w_594_file = false /\
+  Proofs.C07Pipeline.is_generated (single_file_run (go_generate uc_exec) uc_exec Proofs.C07.no_tstr nil
+                                     (Proofs.C07Pipeline.w_go_acr nil) Proofs.C07Pipeline.w_594_file) = true.
+Proof. exact Props.C07.C07_go_594_refuted. Qed.
+Print Assumptions Props.C07.C07_go_594_refuted.
+Goal match topsort Proofs.C07Topsort.w_shadow_items with
+  | Ok out => List.map Proofs.C07Topsort.iname out = cons (lit "B") (cons (lit "A") (cons (lit "S") nil)) \/
+              List.map Proofs.C07Topsort.iname out = cons (lit "A") (cons (lit "B") (cons (lit "S") nil))
+  | _ => False
+  end.
+Proof. exact Props.C07.C07_topsort_nonvacuous. Qed.
+Print Assumptions Props.C07.C07_topsort_nonvacuous.
